@@ -79,15 +79,25 @@ func init() {
 		{name: "gradle", path: "gradle.lockfile", ex: gradlelockfile.New(), lineA: true, gen: genGradle, bad: badGradle, small: smallGradle},
 		{name: "gemfile", path: "Gemfile.lock", ex: gemfilelock.New(), lineA: true, gen: genGemfile, bad: badGemfile, small: smallGemfile},
 		{name: "dpkg", path: "var/lib/dpkg/status", ex: dpkg.NewDefault(), lineA: true, gen: genDpkg, bad: badDpkg, small: smallDpkg},
+		{name: "dpkgd", path: "var/lib/dpkg/status.d/base-files", ex: dpkg.NewDefault(), lineA: true, gen: genDpkgD, bad: badDpkgD},
 		{name: "requirements", path: "requirements.txt", ex: requirements.NewDefault(), lineA: true, gen: genReq, bad: badReq, small: smallReq},
 		{name: "reqtree", path: "requirements.txt", ex: requirements.NewDefault(), lineA: true, gen: genReqTree, bad: badReqTree, small: smallReqTree, smallQuick: true, locs: true},
-		{name: "plock", path: "package-lock.json", ex: packagelockjson.NewDefault(), decode: packagelockjson.VerifDecodeDoc, gen: genPlock},
-		{name: "composer", path: "composer.lock", ex: composerlock.New(), decode: composerlock.VerifDecodeDoc, gen: genComposer},
-		{name: "cargo", path: "Cargo.lock", ex: cargolock.New(), decode: cargolock.VerifDecodeDoc, gen: genCargo},
-		{name: "poetry", path: "poetry.lock", ex: poetrylock.New(), decode: poetrylock.VerifDecodeDoc, gen: genPoetry},
-		{name: "pipfile", path: "Pipfile.lock", ex: pipfilelock.New(), decode: pipfilelock.VerifDecodeDoc, gen: genPipfile},
-		{name: "pkgslock", path: "packages.lock.json", ex: packageslockjson.NewDefault(), decode: decodePkgsLock, gen: genPkgsLock},
-		{name: "gomod", path: "go.mod", ex: gomod.New(), decode: decodeGoMod, gen: genGoMod},
+		{name: "plock", path: "package-lock.json", ex: packagelockjson.NewDefault(), decode: packagelockjson.VerifDecodeDoc, gen: genPlock, bad: badOf(genPlock)},
+		{name: "composer", path: "composer.lock", ex: composerlock.New(), decode: composerlock.VerifDecodeDoc, gen: genComposer, bad: badOf(genComposer)},
+		{name: "cargo", path: "Cargo.lock", ex: cargolock.New(), decode: cargolock.VerifDecodeDoc, gen: genCargo, bad: badOf(genCargo)},
+		{name: "poetry", path: "poetry.lock", ex: poetrylock.New(), decode: poetrylock.VerifDecodeDoc, gen: genPoetry, bad: badOf(genPoetry)},
+		{name: "pipfile", path: "Pipfile.lock", ex: pipfilelock.New(), decode: pipfilelock.VerifDecodeDoc, gen: genPipfile, bad: badOf(genPipfile)},
+		{name: "pkgslock", path: "packages.lock.json", ex: packageslockjson.NewDefault(), decode: decodePkgsLock, gen: genPkgsLock, bad: badOf(genPkgsLock)},
+		{name: "gomod", path: "go.mod", ex: gomod.New(), decode: decodeGoMod, gen: genGoMod, bad: badOf(genGoMod)},
+	}
+}
+
+// badOf: the malformed stream of a library-decoded format: a well-formed file with a byte- / line-level mutation. Either the extractor's own
+// decoder rejects it — then Extract must fail too (emitCase) — or it decodes, and model and implementation must agree on that document.
+func badOf(gen func(r *rand.Rand) gcase) func(r *rand.Rand) gcase {
+	return func(r *rand.Rand) gcase {
+		c := gen(r)
+		return gcase{format: c.format, data: mutate(r, c.data), class: "bad-mutated"}
 	}
 }
 
@@ -229,6 +239,19 @@ func caseLine(f *format, c gcase) (string, bool) {
 			return "", false // the decoder rejects the bytes: nothing for the record-loop model to do
 		}
 		line += " " + doc
+		if f.name == "gomod" && len(c.files) > 0 {
+			// go.mod with a go.sum next to it: what the go.sum branch reads goes to the model, the bytes of go.sum make the line replayable
+			line += "|" + goSumDoc(c.data, c.files)
+			for _, g := range c.files {
+				if g.path == "go.sum" {
+					sh := "-"
+					if len(g.data) > 0 {
+						sh = hex.EncodeToString(g.data)
+					}
+					line += " S:" + sh
+				}
+			}
+		}
 	}
 	return line, true
 }
@@ -273,6 +296,15 @@ func replay(out *hx.Out, l string) {
 	curCls.Store(f.name + "/replay")
 	curCase.Store(l)
 	at, files := "", []gfile(nil)
+	for _, tok := range t[3:] { // gomod: `S:<hex go.sum>`
+		if strings.HasPrefix(tok, "S:") {
+			var sb []byte
+			if tok != "S:-" {
+				sb, _ = hex.DecodeString(tok[2:])
+			}
+			at, files = f.path, []gfile{{path: f.path, data: data}, {path: "go.sum", data: sb}}
+		}
+	}
 	if f.locs { // T:<hex top path>:<reach> F:<hex path>:<hex content>:<R token> …
 		for _, tok := range t[3:] {
 			x := strings.SplitN(tok, ":", 4)
@@ -295,6 +327,57 @@ func replay(out *hx.Out, l string) {
 	out.Emit(l, reply+" cls="+f.name+"/replay")
 }
 
+type statFails struct{ p string }
+
+func (s statFails) Path() string               { return s.p }
+func (s statFails) Stat() (fs.FileInfo, error) { return nil, fs.ErrPermission }
+
+// probes: assertions about the entry of every extractor that the generated files do not reach (run once per invocation; a failure ends the
+// generator with exit status 3 and the message, which the check reports). (1) FileRequired: the documented file names are accepted, look-alikes are
+// refused, a file whose Stat fails is refused by the extractors that stat. (2) A scan context that is already cancelled: the two record loops that
+// poll it (apk, dpkg) must stop with an error and report nothing.
+func probes() {
+	fr := map[string][][2]string{ // format -> {path, "1" accepted / "0" refused}
+		"apk":          {{"lib/apk/db/installed", "1"}, {"lib/apk/db/installed.bak", "0"}, {"usr/lib/apk/db/installed", "0"}, {"installed", "0"}},
+		"gradle":       {{"gradle.lockfile", "1"}, {"sub/buildscript-gradle.lockfile", "1"}, {"gradle.lock", "0"}, {"gradle.lockfile.bak", "0"}},
+		"gemfile":      {{"Gemfile.lock", "1"}, {"a/b/Gemfile.lock", "1"}, {"gemfile.lock", "0"}, {"Gemfile.lock.orig", "0"}},
+		"dpkg":         {{"var/lib/dpkg/status", "1"}, {"usr/lib/opkg/status", "1"}, {"var/lib/dpkg/status.d/libc6", "1"}, {"var/lib/dpkg/status.d/libc6.md5sums", "0"}, {"var/lib/dpkg/status-old", "0"}, {"var/lib/dpkg/status.d", "0"}, {"lib/dpkg/status", "0"}},
+		"requirements": {{"requirements.txt", "1"}, {"a/requirements-dev.txt", "1"}, {"dev_requirements.txt", "1"}, {"requirements.in", "0"}, {"reqs.txt", "0"}, {"requirements.txt.bak", "0"}},
+		"plock":        {{"package-lock.json", "1"}, {"a/b/package-lock.json", "1"}, {"node_modules/x/package-lock.json", "0"}, {"a/node_modules/b/c/package-lock.json", "0"}, {"package-lock.json5", "0"}, {"npm-shrinkwrap.json", "0"}},
+		"composer":     {{"composer.lock", "1"}, {"x/composer.lock", "1"}, {"composer.json", "0"}},
+		"cargo":        {{"Cargo.lock", "1"}, {"x/Cargo.lock", "1"}, {"cargo.lock", "0"}, {"Cargo.toml", "0"}},
+		"poetry":       {{"poetry.lock", "1"}, {"x/poetry.lock", "1"}, {"pyproject.toml", "0"}},
+		"pipfile":      {{"Pipfile.lock", "1"}, {"x/Pipfile.lock", "1"}, {"Pipfile", "0"}},
+		"pkgslock":     {{"packages.lock.json", "1"}, {"src/App/packages.lock.json", "1"}, {"packages.lock", "0"}, {"package.lock.json", "0"}},
+		"gomod":        {{"go.mod", "1"}, {"x/go.mod", "1"}, {"go.sum", "0"}, {"go.mod.bak", "0"}},
+	}
+	fail := func(f string, a ...any) {
+		fmt.Fprintf(os.Stderr, "c03gen: PROBE FAILED: "+f+"\n", a...)
+		os.Exit(3)
+	}
+	statting := map[string]bool{"apk": true, "dpkg": true, "requirements": true, "plock": true, "pkgslock": true}
+	for _, f := range formats {
+		for _, pw := range fr[f.name] {
+			got := f.ex.FileRequired(simplefileapi.New(pw[0], fakeInfo{name: pw[0], size: 10}))
+			if got != (pw[1] == "1") {
+				fail("%s FileRequired(%q) = %v, the documented file names say %s", f.ex.Name(), pw[0], got, pw[1])
+			}
+		}
+		if statting[f.name] && f.ex.FileRequired(statFails{f.path}) {
+			fail("%s FileRequired accepts %q although its Stat fails", f.ex.Name(), f.path)
+		}
+	}
+	ctx, cancel := context.WithCancel(context.Background())
+	cancel()
+	for _, c := range []struct{ name, data string }{{"apk", "P:a\nV:1\n\nP:b\nV:2\n\n"}, {"dpkg", "Package: a\nStatus: install ok installed\nVersion: 1\n\n"}} {
+		f := byName(c.name)
+		inv, err := f.ex.Extract(ctx, &filesystem.ScanInput{FS: fstest.MapFS{}, Path: f.path, Info: fakeInfo{name: f.path, size: int64(len(c.data))}, Reader: strings.NewReader(c.data)})
+		if err == nil || len(inv.Packages) != 0 {
+			fail("%s Extract with a cancelled context returned %d package(s), err=%v (expected an error and nothing reported)", f.ex.Name(), len(inv.Packages), err)
+		}
+	}
+}
+
 func main() {
 	o := hx.Parse()
 	out := hx.NewOut()
@@ -311,6 +394,7 @@ func main() {
 			os.Exit(2)
 		}
 	}
+	probes()
 	if o.Replay != "" {
 		for _, l := range hx.ReplayLines(o.Replay) {
 			replay(out, l)
